@@ -186,6 +186,7 @@ func c11Exec(cs c11Case) (*fw.Violation, *harness.Client) {
 }
 
 func runC11(c *fw.Ctx) {
+	runSpxFamily(c, "C11")
 	thorough := c.Tier == "thorough"
 	var item int64
 	sampled := 0
